@@ -88,6 +88,7 @@ func runC03(r *Run) {
 	r.checkNextAgree(P)
 	r.checkFullThenUpdate(P)
 	r.checkProgress(P)
+	r.checkResolveFlow(P)
 }
 
 // checkProvenance checks provTable; only restricts to the given fields when non-nil.
@@ -381,4 +382,184 @@ func (r *Run) checkProgress(P string) {
 			"an empty commitment (deactivated, or bad-delta create/recover) must end the chain", "return under next commitment == \"\"", "no return guarded by an empty next commitment")
 	}
 	r.R.Floor(P+".progress.floor", "instance floor", len(calls), 1, "applyFirstValidOperation call in the chain loop")
+}
+
+// checkResolveFlow: the three phases of Resolve are chained through the state
+// (create → full → update → result), a phase is skipped only when its operation
+// list is empty, and the chain loop of applyOperations advances state and
+// commitment from the state it just produced.
+func (r *Run) checkResolveFlow(P string) {
+	res := r.fn(P, pkgProcessor, "OperationProcessor.Resolve")
+	ao := r.fn(P, pkgProcessor, "OperationProcessor.applyOperations")
+	if res == nil || ao == nil {
+		return
+	}
+	ff := r.E.Facts(res, core.Ctx{})
+	why := "a phase whose result is dropped, that starts from a stale state, or that is skipped although it has operations, leaves the resolved state behind the anchored history"
+	// --- phases
+	var createCall, fullCall, updCall *ssa.Call
+	for _, c := range r.callsIn(res, "OperationProcessor.applyFirstValidCreateOperation") {
+		createCall = c
+	}
+	for _, c := range r.callsIn(res, "OperationProcessor.applyOperations") {
+		if cf := closureFn(c.Common().Args[3]); cf != nil {
+			s := r.succ(cf, core.Ctx{})
+			switch {
+			case core.HasFact(s.Facts, "cmp(<result> == $0.RecoveryCommitment)"):
+				fullCall = c
+			case core.HasFact(s.Facts, "cmp(<result> == $0.UpdateCommitment)"):
+				updCall = c
+			}
+		}
+	}
+	if createCall == nil || fullCall == nil || updCall == nil {
+		r.R.Unk(P+".flow.phases", "anchor", core.FuncName(res), r.where(res), why, "create / full / update phase calls not identified")
+		return
+	}
+	leavesOf := func(v ssa.Value) map[ssa.Value]bool {
+		out := map[ssa.Value]bool{}
+		for _, l := range phiLeaves(v) {
+			out[l] = true
+		}
+		return out
+	}
+	only := func(m map[ssa.Value]bool, allowed ...ssa.Value) (bool, string) {
+		for l := range m {
+			ok := false
+			for _, a := range allowed {
+				if l == a {
+					ok = true
+				}
+			}
+			if !ok {
+				return false, ff.TB.Of(l).String()
+			}
+		}
+		return true, ""
+	}
+	fullState := leavesOf(fullCall.Common().Args[2])
+	ok1, bad1 := only(fullState, createCall)
+	r.R.Check(ok1 && fullState[createCall], P+".flow.state.full", "E13 threading: the recover/deactivate phase starts from the state produced by the create phase", core.FuncName(res), r.P.Pos(fullCall.Pos()), why,
+		"state = create phase result", "the full phase starts from "+bad1)
+	updState := leavesOf(updCall.Common().Args[2])
+	ok2, bad2 := only(updState, createCall, fullCall)
+	r.R.Check(ok2 && updState[createCall] && updState[fullCall], P+".flow.state.update", "E13 threading: the update phase starts from the state produced by the full phase, or by the create phase when there are no full operations", core.FuncName(res), r.P.Pos(updCall.Pos()), why,
+		"state = φ(create result, full result)", "the update phase starts from "+bad2+fmt.Sprintf(" (create result used: %v, full result used: %v)", updState[createCall], updState[fullCall]))
+	var finalRet *ssa.Return
+	okRet := true
+	badRet := ""
+	sawUpd := false
+	for _, ri := range ff.Returns() {
+		if ri.Class != core.RetSuccess {
+			continue
+		}
+		ls := leavesOf(core.RetOp(ri.Ret, 0))
+		if o, b := only(ls, createCall, fullCall, updCall); !o {
+			okRet = false
+			badRet = b
+		}
+		if ls[updCall] {
+			sawUpd = true
+			finalRet = ri.Ret
+		}
+	}
+	r.R.Check(okRet && sawUpd, P+".flow.state.result", "E13 threading: Resolve returns the state produced by its last executed phase (the update phase's result on the final return)", core.FuncName(res), r.where(res), why,
+		"returned state ∈ {create, full, update results}, final return carries the update result", "returned state derives from "+badRet+fmt.Sprintf(" (update result returned: %v)", sawUpd))
+	// --- a phase is skipped only when it has nothing to apply
+	inBlock := func(c *ssa.Call) func(a, b *ssa.BasicBlock) bool {
+		return func(a, b *ssa.BasicBlock) bool { return b == c.Block() }
+	}
+	filterCalls := r.callsIn(res, "getOpsWithTxnGreaterThanOrUnpublished")
+	if len(filterCalls) == 1 && finalRet != nil {
+		fc := filterCalls[0]
+		emptyFull := "cmp(len(splitOperations(_)#2) == 0)"
+		skipFull := reachesAvoiding(ff, createCall, fc, func(a, b *ssa.BasicBlock) bool {
+			return inBlock(fullCall)(a, b) || r.factsImplyAny(ff.EdgeFacts(a, b), []string{emptyFull}, 1)
+		})
+		r.R.Check(!skipFull, P+".flow.guard.full", "E8: between the create phase and the update filter, the recover/deactivate phase is bypassed only across len(full operations) = 0", core.FuncName(res), r.P.Pos(fullCall.Pos()), why,
+			"bypass only when empty", "the full phase can be bypassed although there are full operations")
+		emptyUpd := "cmp(len(getOpsWithTxnGreaterThanOrUnpublished(...)) == 0)"
+		skipUpd := reachesAvoiding(ff, fc, finalRet, func(a, b *ssa.BasicBlock) bool {
+			return inBlock(updCall)(a, b) || r.factsImplyAny(ff.EdgeFacts(a, b), []string{emptyUpd}, 1)
+		})
+		r.R.Check(!skipUpd, P+".flow.guard.update", "E8: between the update filter and the final return, the update phase is bypassed only across len(filtered updates) = 0", core.FuncName(res), r.P.Pos(updCall.Pos()), why,
+			"bypass only when empty", "the update phase can be bypassed although there are updates to apply")
+	} else {
+		r.R.Unk(P+".flow.guard", "anchor", core.FuncName(res), r.where(res), why, fmt.Sprintf("%d update-filter calls, final return found: %v", len(filterCalls), finalRet != nil))
+	}
+	// --- indexing by revealed commitment skips a bad operation, not the rest
+	if hm := r.fn(P, pkgProcessor, "OperationProcessor.createOperationHashMap"); hm != nil {
+		okIso, detIso := r.loopBodyIsolated(hm)
+		r.R.Check(okIso, P+".flow.index.isolation", "E8 loop isolation: while operations are indexed by the commitment their revealed key hashes to, an operation that cannot be indexed is skipped and the loop goes on", core.FuncName(hm), r.where(hm),
+			"leaving the loop at the first unparsable operation hides every later operation of the DID from resolution", "no exit from the loop body", detIso)
+	}
+	// --- chain loop of applyOperations
+	af := r.E.Facts(ao, core.Ctx{})
+	for _, c := range r.callsIn(ao, "OperationProcessor.applyFirstValidOperation") {
+		args := c.Common().Args // recv, ops, state, current commitment, consumed
+		st := map[ssa.Value]bool{}
+		for _, l := range phiLeaves(args[2]) {
+			st[l] = true
+		}
+		okState := len(st) == 2 && st[ssa.Value(ao.Params[2])] && st[ssa.Value(c)]
+		r.R.Check(okState, P+".flow.loop.state", "E13 threading: each round of the chain starts from φ(initial state, state produced by the previous round)", core.FuncName(ao), r.P.Pos(c.Pos()),
+			"if the produced state is not carried into the next round, only the first operation of a chain takes effect", "state = φ(rm, newState)", "the loop's state argument is "+af.TB.Of(args[2]).String())
+		okC, sawNew := true, false
+		var cKeys []ssa.Value
+		for _, l := range phiLeaves(args[3]) {
+			cKeys = append(cKeys, l)
+			cc, isCall := l.(*ssa.Call)
+			if !isCall || len(cc.Common().Args) != 1 || cc.Common().Value != ssa.Value(ao.Params[3]) {
+				okC = false
+				continue
+			}
+			for _, sl := range phiLeaves(cc.Common().Args[0]) {
+				switch sl {
+				case ssa.Value(c):
+					sawNew = true
+				case ssa.Value(ao.Params[2]):
+				default:
+					okC = false
+				}
+			}
+		}
+		r.R.Check(okC && sawNew, P+".flow.loop.commitment", "E13 threading: the commitment of the next round is commitmentFnc(state produced by this round)", core.FuncName(ao), r.P.Pos(c.Pos()),
+			"a commitment that is not recomputed from the new state makes the chain stop after one operation or retry the consumed commitment", "c = φ(commitmentFnc(rm), commitmentFnc(newState))", "the commitment argument is "+short(af.TB.Of(args[3]).String(), 160))
+		// every value the commitment can take is looked up
+		looked := map[ssa.Value]bool{}
+		for _, ov := range phiLeaves(args[1]) {
+			if ex, isEx := ov.(*ssa.Extract); isEx {
+				if lk, isLk := ex.Tuple.(*ssa.Lookup); isLk {
+					looked[lk.Index] = true
+					for _, kl := range phiLeaves(lk.Index) {
+						looked[kl] = true
+					}
+				}
+			}
+		}
+		okLk := true
+		for _, k := range cKeys {
+			if !looked[k] && !looked[args[3]] {
+				okLk = false
+			}
+		}
+		r.R.Check(okLk, P+".flow.loop.lookup", "E13: the candidates of every round are looked up under that round's commitment (no stale candidate list)", core.FuncName(ao), r.P.Pos(c.Pos()),
+			"a candidate list that is not refreshed applies the operations of the previous commitment again", "one lookup per commitment value", "a commitment value is never used as lookup key")
+		// no candidate applied => the loop is left
+		head := loopHead(ao)
+		okBreak := head != nil
+		for _, b := range ao.Blocks {
+			for _, s := range b.Succs {
+				for _, fc := range af.EdgeFacts(b, s) {
+					if fc.Kind == "cmp" && fc.Op == "==" && fc.B.Op == "const" && fc.B.Name == "nil" && fc.A.Val == ssa.Value(c) {
+						if head != nil && blockReaches(af, s, head, nil) {
+							okBreak = false
+						}
+					}
+				}
+			}
+		}
+		r.R.Check(okBreak, P+".flow.loop.break", "E8: when no candidate could be applied the chain loop is left (the nil-state edge does not reach the loop head)", core.FuncName(ao), r.P.Pos(c.Pos()),
+			"continuing with the same commitment and an unchanged consumed set never terminates", "nil state leaves the loop", "the nil-state edge returns to the loop head")
+	}
 }
